@@ -1,10 +1,12 @@
 (* SolverOracle (C04): the time loop with the iterative linear solver as an oracle that returns
-   a candidate solution and a convergence flag, under scipy's documented contract
-   (info = 0 -> residual within the configured tolerance; nothing is promised otherwise), and a
-   direct solve used when the flag is non-zero.  The loop stores the iterate only when info = 0 --
-   this is what the code does after the fixes, and what the harness confirms behaviourally by
-   intercepting the solver and injecting failures. *)
-From Coq Require Import Reals List Lia Arith.
+   a candidate solution and a convergence flag.  Nothing is assumed about that oracle: since the
+   repairs 15e03b2 / 223c4bf the loop itself tests the TRUE residual of the returned iterate
+   ([check], the code's _is_solved) and stores the iterate only when the flag is 0 AND the test
+   passes; otherwise the tridiagonal system is solved directly.  The shape of that decision is
+   regenerated from the source on every run (Gen_reservoir.single_falls_back / ideal_falls_back,
+   is_solved) and tied to [accept] below in Props/C04_acceptance.v; the harness confirms it
+   behaviourally by intercepting the solver and injecting failures and drifted iterates. *)
+From Coq Require Import Reals List Lia Arith Bool.
 From BBLib Require Import NumSig Tridiag Reservoir.
 Import ListNotations.
 Open Scope R_scope.
@@ -12,9 +14,7 @@ Open Scope R_scope.
 Section Oracle.
   Variable solve : list (R * R * R) -> list R -> list R * nat.      (* bicgstab: (x, info) *)
   Variable direct : list (R * R * R) -> list R -> list R.           (* spsolve *)
-  Variable within_tol : list (R * R * R) -> list R -> list R -> Prop.
-  Hypothesis contract : forall rows b x, solve rows b = (x, 0%nat) -> within_tol rows b x.
-  Hypothesis direct_contract : forall rows b, within_tol rows b (direct rows b).
+  Variable check : list (R * R * R) -> list R -> list R -> bool.    (* _is_solved: the true residual test *)
   Variable alpha_s : R -> R.
   Variable m_i dx2 : R.
 
@@ -24,7 +24,7 @@ Section Oracle.
 
   Definition accept (rows : list (R * R * R)) (b : list R) : list R :=
     match solve rows b with
-    | (x, O) => x
+    | (x, O) => if check rows b x then x else direct rows b
     | (_, S _) => direct rows b
     end.
 
@@ -42,32 +42,67 @@ Section Oracle.
     accept rows b :: run_o (t1 :: tt) ft (accept rows b).
   Proof. reflexivity. Qed.
 
-  (* every stored level solves its step's system to the solver's tolerance *)
-  Fixpoint steps_ok (times mf : list R) (prev : list R) (rest : list (list R)) : Prop :=
+  (* every stored level satisfies [ok] for its own step system *)
+  Fixpoint steps_ok (ok : list (R * R * R) -> list R -> list R -> Prop)
+           (times mf : list R) (prev : list R) (rest : list (list R)) : Prop :=
     match times, mf, rest with
     | t0 :: ((t1 :: _) as tt), f0 :: ft, x :: rs =>
-        (let '(rows, b) := step_system f0 ((t1 - t0) / dx2) prev in within_tol rows b x)
-        /\ steps_ok tt ft x rs
+        (let '(rows, b) := step_system f0 ((t1 - t0) / dx2) prev in ok rows b x)
+        /\ steps_ok ok tt ft x rs
     | _, _, _ => True
     end.
 
-  Lemma accept_ok rows b : within_tol rows b (accept rows b).
+  (* what is stored passed the code's own residual test, or is the direct solution: no contract of
+     the iterative solver is involved *)
+  Definition checked_or_direct (rows : list (R * R * R)) (b x : list R) : Prop :=
+    check rows b x = true \/ x = direct rows b.
+
+  Lemma accept_checked rows b : checked_or_direct rows b (accept rows b).
   Proof.
-    unfold accept. destruct (solve rows b) as [x [|k]] eqn:E; [now apply contract|apply direct_contract].
+    unfold accept, checked_or_direct. destruct (solve rows b) as [x [|k]]; [|now right].
+    destruct (check rows b x) eqn:E; [now left|now right].
   Qed.
 
-  Theorem stored_steps_have_small_residual : forall times mf prev,
-    steps_ok times mf prev (run_o times mf prev).
+  Lemma steps_ok_run (ok : list (R * R * R) -> list R -> list R -> Prop) :
+    (forall rows b, ok rows b (accept rows b)) ->
+    forall times mf prev, steps_ok ok times mf prev (run_o times mf prev).
   Proof.
-    induction times as [|t0 tt IH]; intros mf prev; [exact I|].
+    intros Hok. induction times as [|t0 tt IH]; intros mf prev; [exact I|].
     destruct tt as [|t1 tt']; [destruct mf; exact I|].
     destruct mf as [|f0 ft]; [exact I|].
     rewrite run_o_cons. destruct (step_system f0 ((t1 - t0) / dx2) prev) as [rows b] eqn:Es.
-    cbn [steps_ok]. rewrite Es. split; [apply accept_ok|apply IH].
+    cbn [steps_ok]. rewrite Es. split; [apply Hok|apply IH].
   Qed.
 
-  (* an iterate that the solver flags as not converged is never what gets stored *)
+  Theorem stored_steps_are_checked_or_direct : forall times mf prev,
+    steps_ok checked_or_direct times mf prev (run_o times mf prev).
+  Proof. apply steps_ok_run, accept_checked. Qed.
+
+  (* with any tolerance predicate that the residual test implies and the direct solve meets *)
+  Theorem stored_steps_have_small_residual (within_tol : list (R * R * R) -> list R -> list R -> Prop) :
+    (forall rows b x, check rows b x = true -> within_tol rows b x) ->
+    (forall rows b, within_tol rows b (direct rows b)) ->
+    forall times mf prev, steps_ok within_tol times mf prev (run_o times mf prev).
+  Proof.
+    intros Hc Hd. apply steps_ok_run. intros rows b.
+    destruct (accept_checked rows b) as [H|H]; [now apply Hc|rewrite H; apply Hd].
+  Qed.
+
+  (* an iterate that the solver flags as not converged is never what gets stored ... *)
   Theorem nonconverged_iterate_never_stored : forall rows b x k,
     solve rows b = (x, S k) -> accept rows b = direct rows b.
   Proof. intros rows b x k H. unfold accept. now rewrite H. Qed.
+
+  (* ... and neither is one that is flagged as converged but fails the true residual test *)
+  Theorem drifted_iterate_never_stored : forall rows b x,
+    solve rows b = (x, O) -> check rows b x = false -> accept rows b = direct rows b.
+  Proof. intros rows b x H Hc. unfold accept. now rewrite H, Hc. Qed.
+
+  (* the stored level is the iterate exactly when the flag is 0 and the test passes *)
+  Theorem iterate_stored_iff : forall rows b x info,
+    solve rows b = (x, info) ->
+    accept rows b = (if (Nat.eqb info 0 && check rows b x)%bool then x else direct rows b).
+  Proof.
+    intros rows b x info H. unfold accept. rewrite H. destruct info as [|k]; cbn [Nat.eqb andb]; reflexivity.
+  Qed.
 End Oracle.
